@@ -2,21 +2,49 @@
 import os as _os, sys as _sys
 _sys.path.insert(0, _os.path.dirname(_os.path.dirname(_os.path.abspath(__file__))))
 import itertools, time, traceback, sys, os
-from z3 import (And, Or, Not, Implies, Const, ForAll, Solver, SimpleSolver, unsat, sat, unknown, K, BoolSort, IntSort, set_param)
+from z3 import (And, Or, Not, Implies, Const, ForAll, Solver, SimpleSolver, Store, unsat, sat, unknown, K, BoolSort, IntSort, set_param)
 from pyvc.logic import Ctx, IR_CLASSES, FIRST_CLASS
 from pyvc.classes import ClassTable
 from pyvc.se import SE, St, Unsupported, R, B, I
 
 
+def _cli(cmd, text, timeout_s):
+    import subprocess, tempfile
+    with tempfile.NamedTemporaryFile('w', suffix='.smt2', delete=True) as f:
+        f.write(text); f.flush()
+        try:
+            p = subprocess.run(cmd + [f.name], capture_output=True, text=True, timeout=timeout_s + 5)
+            out = (p.stdout or '').strip().split('\n')[0].strip()
+            return out if out in ('sat', 'unsat', 'unknown') else 'unknown(%s)' % (p.stdout + p.stderr)[:80].replace('\n', ' ')
+        except subprocess.TimeoutExpired:
+            return 'timeout'
+
+
 def discharge(ctx, hyps, goal, timeout_ms=20000):
+    """stage 1: z3 (Python API) with E-matching only -- fast, and fast to give up;
+    stage 2: the same query as SMT-LIB text to cvc5, then to /usr/bin/z3 (4.8.12), then z3's default strategy (MBQI).
+    An obligation counts as discharged when any back end answers unsat.  Returns (status, seconds, detail, backend)."""
     s = SimpleSolver(); s.set('timeout', timeout_ms); s.set('mbqi', False)
     s.add(ctx.axioms); s.add(hyps); s.add(Not(goal))
-    t = time.time(); r = s.check(); dt = time.time() - t
-    if r == unsat: return 'discharged', dt, ''
-    reason = s.reason_unknown() if r == unknown else 'sat'
-    if r == unknown and ('timeout' in reason or 'canceled' in reason or 'max' in reason or 'resource' in reason):
-        return 'undecided', dt, reason
-    return 'failed', dt, reason
+    t = time.time(); r = s.check()
+    if r == unsat: return 'discharged', time.time() - t, '', 'z3-ematching'
+    reason1 = s.reason_unknown() if r == unknown else 'sat'
+    text = '(set-logic ALL)\n' + s.to_smt2()
+    tl = max(timeout_ms // 1000, 20)
+    r2 = _cli(['/usr/bin/cvc5', '--tlimit=%d' % (tl * 1000)], text, tl)
+    if r2 == 'unsat': return 'discharged', time.time() - t, '', 'cvc5'
+    r3 = _cli(['/usr/bin/z3', '-T:%d' % tl], text, tl)
+    if r3 == 'unsat': return 'discharged', time.time() - t, '', 'z3-4.8-cli'
+    s4 = Solver(); s4.set('timeout', tl * 1000)
+    s4.add(ctx.axioms); s4.add(hyps); s4.add(Not(goal))
+    r4 = s4.check()
+    if r4 == unsat: return 'discharged', time.time() - t, '', 'z3-mbqi'
+    reason4 = s4.reason_unknown() if r4 == unknown else 'sat'
+    detail = 'z3-ematching: %s; cvc5: %s; z3-4.8: %s; z3-mbqi: %s' % (reason1, r2, r3, reason4)
+    timed_out = lambda why: any(w in why for w in ('timeout', 'canceled', 'max', 'resource'))
+    if timed_out(reason1) and r2 in ('timeout',) and r3 in ('timeout',):
+        return 'undecided', time.time() - t, detail, ''
+    return 'failed', time.time() - t, detail, ''
 
 
 def param_alternatives(ctx, h0, name, kind):
@@ -24,6 +52,8 @@ def param_alternatives(ctx, h0, name, kind):
     c = ctx
     if kind == 'any':
         v = Const(name, c.Ref); return [(R(v), [h0['alloc'][v]])]
+    if kind.startswith('any!'):
+        v = Const(name, c.Ref); return [(R(v), [h0['alloc'][v], Not(c.isa(v, kind[4:]))])]
     if kind == 'none':
         return [(R(c.null), [])]
     if kind == 'int':
@@ -72,18 +102,24 @@ def run_function(repo, cls, name, kind, params, spec_module='specs.ir', opts=Non
     base_pc = [g for _, _, g in inv0] + [h0['alloc'][self_], ctx.cls(self_) == ctx.C[cls]]
     alts = [param_alternatives(ctx, h0, p, k) for p, k in params]
     agg = {}      # obligation name -> [status, time, detail]
-    def record(name, status, dt, detail=''):
+    def record(name, status, dt, detail='', backend=''):
         rank = {'discharged': 0, 'undecided': 1, 'failed': 2}
         cur = agg.get(name)
         if cur is None or rank[status] > rank[cur[0]]:
-            agg[name] = [status, (cur[1] if cur else 0) + dt, detail]
+            agg[name] = [status, (cur[1] if cur else 0) + dt, detail, backend if not cur or (backend and backend != 'z3-ematching') else cur[3]]
         else:
             cur[1] += dt
+            if backend and backend != 'z3-ematching': cur[3] = backend
     nsat = 0
     try:
         for combo in itertools.product(*alts) if alts else [()]:
-            se = SE(ctx, ct, spec, sat_timeout=opts.get('sat_timeout', 4000))
+            se = SE(ctx, ct, spec, sat_timeout=opts.get('sat_timeout', 500))
             st = St(h0, base_pc)
+            if name == '__init__':
+                # a constructor runs on a freshly allocated object that nothing refers to yet
+                st.pc = [g for _, _, g in inv0] + [Not(h0['alloc'][self_]), ctx.cls(self_) == ctx.C[cls], self_ != ctx.null]
+                st.heap['alloc'] = Store(h0['alloc'], self_, True)
+                st.fresh.append(self_)
             args = [R(self_)]
             for v, assumptions in combo:
                 args.append(v); st.pc += assumptions
@@ -95,9 +131,13 @@ def run_function(repo, cls, name, kind, params, spec_module='specs.ir', opts=Non
             out['paths'] += len(se.outcomes)
             # mid-path obligations (loop init/preservation, cover-before-write, ...)
             for oname, hyps, goal, shaky in se.obligations:
-                stt, dt, why = discharge(ctx, hyps, goal, opts.get('timeout_ms', 20000))
-                if stt == 'failed' and shaky: stt = 'undecided'; why = 'path feasibility undecided; ' + why
-                record(oname, stt, dt, why)
+                stt, dt, why, be = discharge(ctx, hyps, goal, opts.get('timeout_ms', 20000))
+                if stt != 'discharged' and shaky:
+                    from z3 import BoolVal
+                    fst, fdt, fwhy, fbe = discharge(ctx, hyps, BoolVal(False), opts.get('timeout_ms', 20000))
+                    if fst == 'discharged': stt, why, be = 'discharged', 'path infeasible', fbe
+                    elif stt == 'failed': stt = 'undecided'; why = 'path feasibility undecided; ' + why
+                record(oname, stt, dt, why, be)
             for s, ekind, val in se.outcomes:
                 out['exits'][ekind] = out['exits'].get(ekind, 0) + 1
                 goals = []
@@ -113,10 +153,22 @@ def run_function(repo, cls, name, kind, params, spec_module='specs.ir', opts=Non
                 if post is not None:
                     for prop, cname, g in post(ctx, spec, h0, s, ekind, args, val):
                         goals.append(('%s/%s/exit=%s/%s' % (prop, fi.qual, ekind, cname), g))
+                pending = []
                 for oname, g in goals:
-                    stt, dt, why = discharge(ctx, s.pc, g, opts.get('timeout_ms', 20000))
-                    if stt == 'failed' and s.shaky: stt = 'undecided'; why = 'path feasibility undecided; ' + why
-                    record(oname, stt, dt, why)
+                    stt, dt, why, be = discharge(ctx, s.pc, g, opts.get('timeout_ms', 20000))
+                    if stt == 'discharged': record(oname, stt, dt, why, be)
+                    else: pending.append((oname, stt, dt, why, be))
+                if pending:
+                    # before anything is reported: is this path feasible at all?  (feasibility checks during execution are cheap
+                    # and may have let an infeasible path through)
+                    from z3 import BoolVal
+                    fst, fdt, fwhy, fbe = discharge(ctx, s.pc, BoolVal(False), opts.get('timeout_ms', 20000))
+                    for oname, stt, dt, why, be in pending:
+                        if fst == 'discharged':
+                            record(oname, 'discharged', dt + fdt, 'path infeasible', fbe)
+                        else:
+                            if stt == 'failed' and s.shaky: stt = 'undecided'; why = 'path feasibility undecided; ' + why
+                            record(oname, stt, dt, why, be)
         if not agg:
             record('VACUITY/%s/no-obligations' % fi.qual, 'failed', 0, 'zero obligations generated')
     except Unsupported as e:
@@ -125,7 +177,7 @@ def run_function(repo, cls, name, kind, params, spec_module='specs.ir', opts=Non
         out['degraded'] = 'left-subset: recursion depth'
     except Exception as e:
         out['error'] = traceback.format_exc()[-1500:]
-    out['results'] = [{'name': n, 'status': v[0], 'time_s': round(v[1], 4), 'detail': v[2]} for n, v in sorted(agg.items())]
+    out['results'] = [{'name': n, 'status': v[0], 'time_s': round(v[1], 4), 'detail': v[2], 'backend': v[3]} for n, v in sorted(agg.items())]
     out['wall_s'] = round(time.time() - t_start, 2)
     out['sat_checks'] = nsat
     return out
